@@ -187,6 +187,14 @@ def canonical_renaming(term, max_leaves=3000):
     coef, objs, contr = term
     # a delta between identical indices is 1 (dropped by the Lean normaliser): it must not influence the names
     objs = tuple(o for o in objs if not (o[0] == "D" and o[1] == o[2]))
+    # the Lean normaliser writes (p)^e as |e| copies of p^(+-1)
+    objs2 = []
+    for o in objs:
+        if o[0] == "P":
+            objs2.extend([("P", o[1], -1 if o[2] < 0 else 1)] * abs(o[2]))
+        else:
+            objs2.append(o)
+    objs = tuple(objs2)
     contr = list(contr)
     all_idx = set(contr)
     for o in objs:
